@@ -6,4 +6,6 @@ import GontainerModel.Props.C06
 #print axioms GM.C06.wiring_pinned
 #print axioms GM.C06.accepted_service_refs_resolve
 #print axioms GM.C06.accepted_param_refs_resolve
+#print axioms GM.C06.compiled_service_refs_declared
+#print axioms GM.C06.compiled_param_refs_declared
 #print axioms GM.C06.pattern_deps_all_refs
